@@ -740,9 +740,11 @@ func (l *Ledger) Apply(b types.Block, expiring []types.FileContractID) (*Ledger,
 	}
 	// v1 expirations
 	wantExp := map[types.FileContractID]bool{}
-	for id, e := range n.FC {
-		if e.FC.WindowEnd == height {
-			wantExp[id] = true
+	if height < l.P.V2RequireHeight { // from the require height on v1 supplements must be empty: nothing expires
+		for id, e := range n.FC {
+			if e.FC.WindowEnd == height {
+				wantExp[id] = true
+			}
 		}
 	}
 	for _, id := range expiring {
